@@ -13,6 +13,7 @@ import (
 	"encoding/json"
 	"errors"
 	"fmt"
+	"io/fs"
 	"math/rand/v2"
 	"os"
 	"path/filepath"
@@ -147,6 +148,18 @@ func historyCase(t *testing.T, r *evid.Run, idx int, tmp string) {
 	failWrites := false
 	cache := &fakesvc.MonCache{WriteErr: func(int) error {
 		if failWrites {
+			// (what a file cache reports when the disk is full, the directory or file system is not writable
+			// at that moment, or for no classifiable reason)
+			switch idx % 5 {
+			case 0:
+				return &fs.PathError{Op: "open", Path: "/var/cache/app/secrets.tmp123", Err: syscall.EACCES}
+			case 1:
+				return &fs.PathError{Op: "open", Path: "/var/cache/app/secrets.tmp123", Err: syscall.EROFS}
+			case 2:
+				return &fs.PathError{Op: "write", Path: "/var/cache/app/secrets.tmp123", Err: syscall.ENOSPC}
+			case 3:
+				return &os.LinkError{Op: "rename", Old: "/var/cache/app/secrets.tmp123", New: "/var/cache/app/secrets", Err: syscall.EPERM}
+			}
 			return errors.New("injected cache write failure")
 		}
 		return nil
@@ -1119,7 +1132,9 @@ func retainingCaches(r *evid.Run) {
 		for inc := 1; inc <= 2; inc++ {
 			held := string(cache.data)
 			dead := fakesvc.New()
-			dead.Behave = func(*fakesvc.Req) fakesvc.Behaviour { return fakesvc.Behaviour{Fail: errors.New("service unreachable")} }
+			dead.Behave = func(*fakesvc.Req) fakesvc.Behaviour {
+				return fakesvc.Behaviour{Fail: errors.New("service unreachable")}
+			}
 			ctx, cancel := context.WithTimeout(context.Background(), 2*time.Second)
 			st2, err := setec.NewStore(ctx, setec.StoreConfig{Client: dead, Secrets: []string{"s", "t"}, Cache: cache, PollInterval: -1, Logf: func(string, ...any) {}})
 			cancel()
